@@ -335,6 +335,9 @@ impl<'a> Run<'a> {
             }
         }
         o.insert("status".into(), json!(status));
+        if status != "ok" {
+            o.insert("msg".into(), json!(LAST_MSG.with(|m| m.borrow().clone())));
+        }
         o.insert("fin".into(), json!(fin));
         let ok = status == "ok" && fin && inr;
         o.insert("inr".into(), json!(inr));
@@ -354,9 +357,21 @@ impl<'a> Run<'a> {
 fn status_of<R>(r: &Result<Result<R, smartcore::error::Failed>, String>) -> &'static str {
     match r {
         Ok(Ok(_)) => "ok",
-        Ok(Err(_)) => "err",
-        Err(_) => "panic",
+        Ok(Err(e)) => {
+            LAST_MSG.with(|m| *m.borrow_mut() = format!("{}", e));
+            "err"
+        }
+        Err(p) => {
+            LAST_MSG.with(|m| *m.borrow_mut() = p.clone());
+            "panic"
+        }
     }
+}
+
+thread_local! {
+    /// message of the last error / panic (informational field `msg` of the event; the
+    /// specification does not read it)
+    static LAST_MSG: std::cell::RefCell<String> = std::cell::RefCell::new(String::new());
 }
 
 // ---------------------------------------------------------------------------------------------
